@@ -501,6 +501,9 @@ func (fr *Frame) callSiteChecks(st *State, callee string, hasRecv bool, args []V
 		if cs.Callee != callee {
 			continue
 		}
+		if cs.Ord > 0 && fr.callOrdinal(callee) != cs.Ord {
+			continue
+		}
 		bound := map[string]SV{}
 		rest := args
 		if hasRecv && len(args) > 0 {
@@ -513,6 +516,43 @@ func (fr *Frame) callSiteChecks(st *State, callee string, hasRecv bool, args []V
 		t := fr.evalBool(cs.Clause.Expr, &specCtx{fr: fr, st: st, old: fr.entry, kind: ctxInv, pkg: fr.con.Pkg, bound: bound})
 		g.oblige("callsite", fmt.Sprintf("%s.%d", callee, i+1), st.path, t, "at every call of "+callee+": "+cs.Clause.Text)
 	}
+}
+
+// callOrdinal: the position (1-based, source order) of the call being executed among the calls of the same name
+// in the function under verification; 0 when unknown (calls made from inlined code).
+func (fr *Frame) callOrdinal(callee string) int {
+	if fr.curCall == nil {
+		return 0
+	}
+	if fr.callOrd == nil {
+		fr.callOrd = map[ssa.CallInstruction]int{}
+		byName := map[string][]ssa.CallInstruction{}
+		for _, b := range fr.fn.Blocks {
+			for _, in := range b.Instrs {
+				ci, ok := in.(ssa.CallInstruction)
+				if !ok {
+					continue
+				}
+				c := ci.Common()
+				name := ""
+				if c.IsInvoke() {
+					name = c.Method.Name()
+				} else if f := c.StaticCallee(); f != nil {
+					name = f.Name()
+				}
+				if name != "" {
+					byName[name] = append(byName[name], ci)
+				}
+			}
+		}
+		for _, l := range byName {
+			sort.SliceStable(l, func(i, j int) bool { return l[i].Pos() < l[j].Pos() })
+			for k, ci := range l {
+				fr.callOrd[ci] = k + 1
+			}
+		}
+	}
+	return fr.callOrd[fr.curCall]
 }
 
 func (fr *Frame) pureResult(st *State, fn *ssa.Function, resT types.Type) Val {
